@@ -215,3 +215,23 @@ Definition c08_eigvecs3 (A : c08_mat3) (r : R) (ev : R * R * R) : option (c08_ve
   else
     let w0 := snd (c08_eig0 A l0) in
     c08_obind (c08_eig1v A w0 l1) (fun w1 => Some (w0, w1, c08_cross w0 w1)).
+
+(* ------------------------------------------------------------------------------------------- (7) the whole 3d specialisation
+   jointly sorting three (eigenvalue, eigenvector) pairs: the three compare-exchange steps of the diagonal branch
+   (`if (eigenValues[i] > eigenValues[j]) { swap values; swap vectors }`); std::sort with the comparator on .first in the
+   other branch is modelled by the same network (any correct sort returns an ascending permutation; the theorems only state
+   what holds for every such permutation). *)
+Definition c08_cswap {X : Type} (p q : R * X) : (R * X) * (R * X) := if Rlt_dec (fst q) (fst p) then (q, p) else (p, q).
+Definition c08_bubble3 {X : Type} (p0 p1 p2 : R * X) : (R * X) * (R * X) * (R * X) :=
+  let '(p0, p1) := c08_cswap p0 p1 in
+  let '(p1, p2) := c08_cswap p1 p2 in
+  let '(p0, p1) := c08_cswap p0 p1 in (p0, p1, p2).
+
+(* orthoComp with the comparison flipped (abs(evec0[0]) < abs(evec0[1]) picks the (0,2) pair): the variant a seeded change
+   introduced; it divides by zero for axis-aligned evec0 *)
+Definition c08_orthocomp_flipped (e : c08_vec3) : option (c08_vec3 * c08_vec3) :=
+  let '(e0, e1, e2) := e in
+  c08_obind (if Rlt_dec (Rabs e0) (Rabs e1)
+             then c08_obind (c08_divo 1 (sqrt (0 + e0 * e0 + e2 * e2))) (fun L => Some (c08_smul3 L (- e2, 0, e0)))
+             else c08_obind (c08_divo 1 (sqrt (0 + e1 * e1 + e2 * e2))) (fun L => Some (c08_smul3 L (0, e2, - e1))))
+    (fun u => Some (u, c08_cross e u)).
